@@ -1,26 +1,34 @@
 #!/usr/bin/env python3
 """MANIFEST.setup_cmd: builds the whole framework offline from files on disk."""
-import os, sys
+import json, os, sys
 sys.path.insert(0, os.path.dirname(os.path.abspath(__file__)))
 from vlib import *
 
 def main():
-    ok, out = coq_make()          # full .vo build of every theory (proofs included)
+    integrated = set(json.load(open(os.path.join(ROOT, "tools", "manifest", "_integrated.json"))))
+    ok, out = coq_make()          # full .vo build of every theory (proofs included); -k: keeps going
     if not ok:
         # a broken proof must not prevent the models (and the other properties) from building
         log("coq make reported errors:\n" + out[-3000:])
     rc = 0
-    for pid in sorted(d for d in os.listdir(os.path.join(COQ, "theories")) if os.path.exists(os.path.join(COQ, "theories", d, "Runner.v"))):
+    for pid in sorted(integrated):
+        if not os.path.exists(os.path.join(COQ, "theories", pid, "Runner.v")):
+            continue
         ok2, out2 = build_models(pid)
         if not ok2:
             log("model/extraction build failed for %s:\n" % pid + out2[-3000:])
             rc = 1
     bins = sorted(f[:-3] for f in os.listdir(os.path.join(ROOT, "harness", "src", "bin")) if f.endswith(".rs"))
+    mine = [b for b in bins if b == "prog" or b.split("_")[0].upper() in integrated]
     for rel in (False, True):
-        okc, outc = cargo_build(bins, release=rel)
+        okc, outc = cargo_build(mine, release=rel, features=("hooks",))
         if not okc:
-            log("cargo build failed:\n" + outc[-3000:])
-            return 1
+            # retry one by one so that a single broken bin does not hide the others
+            for b in mine:
+                okb, outb = cargo_build([b], release=rel, features=("hooks",))
+                if not okb:
+                    log("cargo build failed for %s:\n" % b + outb[-2000:])
+                    rc = 1
     return rc
 
 if __name__ == "__main__":
